@@ -361,8 +361,9 @@ PROPS = {
         "rule": "three real aries.Framework agents on an in-process bus (key type x key agreement type x media type profile): "
                 "didexchange invitations run to completion, two exchanges started together (messages interleave), basic "
                 "messages over the connections with the (myDID, theirDID) the receiver's handler is given, then third-party "
-                "traffic: a forged didexchange request attaching a document under the peer's DID, an anoncrypt message whose "
-                "body names the peer; resolve(TheirDID) before and after; non-trivial = an exchange completed",
+                "traffic: a forged didexchange request attaching a document under the peer's DID (own keys, or the peer's keys with "
+                "the service block replaced), an anoncrypt and an authcrypt message whose body names the peer; exchanges while "
+                "one agent's storage writes are slow; resolve(TheirDID) before and after; non-trivial = an exchange completed",
         "trusted_base": ["the bus delivers synchronously (no loss, no reordering beyond what the goroutines of the services do)",
                          "agent start-up, transports, retries and scheduling inside one agent are not modelled (partial)"],
         "assumptions": ["didexchange invitations only (out-of-band, implicit and legacy-connection invitations are not driven)",
@@ -383,8 +384,10 @@ PROPS = {
         "thorough_seeds": 1,
         "case_timeout": 60,
         "rule": "G (2-5) goroutines run short operation lists on ONE shared instance of mem / cachedstore / batchedstore / "
-                "formattedstore providers, localkms, the wallet session manager and the message pickup inbox, the binary being "
-                "built with the Go race detector and GOMAXPROCS varied 1..16; every operation is timestamped (invoke, return); a "
+                "formattedstore providers, localkms, the wallet session manager, a shared wallet and the message pickup inbox, the binary being "
+                "built with the Go race detector and GOMAXPROCS varied 1..16 (KV targets: put / get / delete / tag query / provider calls; "
+                "session manager: open / close / use of the latest token; inbox: add / pickup / pickup with failing delivery; "
+                "one shared wallet: add / get / remove); every operation is timestamped (invoke, return); a "
                 "search proposes a sequential order and the Lean side validates it against its sequential specification "
                 "(Lin.validate, proved sound); a race report, a hang or an unexplained history is a violation; non-trivial = two "
                 "operations of different goroutines overlapped in time",
